@@ -85,6 +85,55 @@ CHECKS = {
         "argument variants are complete at one focus position at a time.",
         "DESIGN.md section 4, C04",
     ),
+    "C06": (
+        "smallscope",
+        "explicit-state BFS over operation histories of the real Standardiser against a "
+        "reference computation",
+        "For every constructor combination of a parameter grid (incl. infinite and fractional "
+        "limits; rejected combinations are checked to be exactly the documented ones) and "
+        "several supplies, breadth-first search over all histories of depth 3 (quick) / 4 "
+        "(thorough) of demand writes (ints and floats), += 1, reads, supply changes and outside "
+        "writes; after every transition the forwarded demand is compared with the limits and "
+        "with a reference (floor to granule, clamp by supply window, clamp by min/max), the "
+        "read-back with the limits and the one-granule distance, pass-through properties with "
+        "the pool's.",
+        "Trusted: the reference computation (a few lines, documented priority order); binary "
+        "exact granules and values; for granularity 1 the rounding clause is checked on "
+        "integral demands only; other magnitudes and longer histories are not covered.",
+        "DESIGN.md section 4, C06",
+    ),
+    "C08": (
+        "smallscope",
+        "bounded-exhaustive enumeration of pool states, parameters, rule / slave tables in "
+        "every declaration order and step sequences against the property's own arithmetic",
+        "LinearController / RelativeSupplyController.regulate over a grid of pool states with "
+        "values on, just below and just above every threshold x all accepted parameter "
+        "combinations x sequences of 1-3 steps; Stepwise rule tables with 0-3 thresholds in "
+        "every declaration order, one iteration of the real run() per step under the virtual "
+        "trio clock; DemandSwitch with 0-3 (threshold, controller) pairs in every order and "
+        "recording sub-controllers. Exact arithmetic (Fractions on dyadic values) decides "
+        "'exactly rate x interval'.",
+        "Trusted: the oracle's reading of the statement (both Linear conditions holding: only "
+        "the bound is required); supply finite and >= 0; thresholds distinct; other values are "
+        "not covered.",
+        "DESIGN.md section 4, C08",
+    ),
+    "C09": (
+        "trioclock",
+        "exhaustive enumeration of timed environment histories and same-instant batch orders "
+        "against the real run() loops under trio's virtual clock",
+        "Every shipped periodic service x period x run duration x all environment histories up "
+        "to depth 2 (quick) / 3 (thorough) with action times before, on and after period "
+        "boundaries, each under every order of the service and the environment when they wake "
+        "at the same virtual instant (trio's batch order is owned); the real run() coroutine "
+        "runs in a real trio.run with MockClock. Oracle: a step at t0 and exactly one per "
+        "period, Linear's rate bound over every span, Buffer forwards only at boundaries and "
+        "then holds the last written value, FactoryPool adjusts once per interval, nothing but "
+        "the injected cancellation leaves run().",
+        "Trusted: trio's MockClock and scheduler; one fixed parameter set per service; eps = "
+        "T/4; longer histories and other parameters are not covered.",
+        "DESIGN.md section 2.2 and section 4, C09",
+    ),
     "C10": (
         "cosched",
         "stateless exhaustive schedule exploration of the real runtime with iterative "
@@ -146,6 +195,23 @@ CHECKS = {
         COSCHED_NOTE + " Real signal timing inside an OS process cannot be enumerated; the "
         "process runs bind the in-process verdict for one signal time per outcome class.",
         "DESIGN.md section 2.1 and section 4, C13",
+    ),
+    "C16": (
+        "smallscope",
+        "explicit-state exploration of operation histories over every decorator stack against "
+        "the underlying pool",
+        "Every stack of depth 0-3 over PoolDecorator, Logger, Standardiser and Buffer on a "
+        "settable pool x all histories of depth 3 (quick) / 4 (thorough) of reads, demand "
+        "writes and changes of the pool; Logger name / level / message-template product over "
+        "all fields including deprecated and unknown ones. Oracle: supply, utilisation and "
+        "allocation through the stack equal the pool's after every operation; demand passes "
+        "unchanged through plain decorators and Loggers; one record per write, emitted before "
+        "the write (handler snapshots the pool), right logger, level and field values; unknown "
+        "fields rejected at construction.",
+        "Trusted: the twin-copy construction used to know the target's state before a write; "
+        "no Buffer service is running; the value of the deprecated `consumption` field is not "
+        "checked.",
+        "DESIGN.md section 4, C16",
     ),
     "C17": (
         "smallscope",
